@@ -74,8 +74,27 @@ SCENARIOS["S9"] = dict(threads=[[op(L, m=0), op(L, m=1), op("start", u=1), op("s
                                  op(R, x=0), op("emit"), op(R, x=1), op("emit"), op("end")], t_far, t_unt, t_unt2],
                        mutexes=2, condvars=0, vars=2, expect=[[0, 1], [0, 10]])
 
-QUICK = ["S9", "S1", "S3", "S4", "S5", "S6", "S7", "S8"]
-ALL = ["S9", "S1", "S2", "S3", "S4", "S5", "S6", "S7", "S8"]
+# S10: thread-local parameters and dynamic-wind (C11's quantifier): every thread parameterizes THE SAME parameter object, yields inside
+# the extents, nests a dynamic-wind and a second parameterize, and records what it sees.  In the model a thread's view of the
+# parameter is a cell private to that thread (pz / pend / dwin / dwout are `set` on it, pget is `read`): that IS the statement
+# "parameterize is thread-local, the scheduler switches dynamic environments with the thread"; the driver uses the real forms
+# and logs the values it observes.  Cells: 1,2,3 = the parameter as seen by thread 0,1,2; 4.. = results.
+def param_thread(cell, base, r1, r2, r3, wcell):
+    return [op("pz", x=cell, k=base + 1), op("yield"), op("pget", x=cell), op(W, x=r1, k=0),
+            op("dwin", x=wcell, k=1), op("yield"),
+            op("pz", x=cell, k=base + 2), op("yield"), op("pget", x=cell), op(W, x=r2, k=0), op("pend", x=cell, k=base + 1),
+            op("dwout", x=wcell, k=2),
+            op("pget", x=cell), op(W, x=r1, k=100),
+            op("pend", x=cell, k=0), op("pget", x=cell), op(W, x=r3, k=1000), op("end")]
+main10 = ([op("start", u=1), op("pz", x=1, k=5), op("start", u=2), op("yield"), op("pget", x=1), op(W, x=4, k=0), op("pend", x=1, k=0),
+           op("join", u=1), op("join", u=2), op("pget", x=1), op(W, x=5, k=0)]
+          + sum([[op(R, x=c), op("emit")] for c in range(4, 14)], []) + [op("end")])
+SCENARIOS["S10"] = dict(threads=[main10, param_thread(2, 10, 6, 7, 8, 9), param_thread(3, 20, 10, 11, 12, 13)],
+                        mutexes=0, condvars=0, vars=14,
+                        expect=[[0, 5], [0, 0], [0, 111], [0, 12], [0, 1000], [0, 2], [0, 121], [0, 22], [0, 1000], [0, 2]])
+
+QUICK = ["S9", "S10", "S1", "S3", "S4", "S5", "S6", "S7", "S8"]
+ALL = ["S9", "S10", "S1", "S2", "S3", "S4", "S5", "S6", "S7", "S8"]
 
 
 def tla_value(v):
@@ -84,7 +103,11 @@ def tla_value(v):
     return str(v)
 
 
+MODEL_OP = {"pz": "set", "pend": "set", "dwin": "set", "dwout": "set", "pget": "read"}
+
+
 def tla_record(d):
+    d = dict(d, op=MODEL_OP.get(d["op"], d["op"]))
     return "[" + ", ".join("%s |-> %s" % (k, tla_value(v)) for k, v in d.items()) + "]"
 
 
